@@ -724,8 +724,8 @@ class EncodingParser(object):
         return self.data.jumpTo(b"-->")
 
     def handleMeta(self):
-        if self.data.currentByte not in spaceCharactersBytes:
-            # if we have <meta not followed by a space so just keep going
+        if self.data.currentByte not in spaceCharactersBytes | frozenset([b"/"]):
+            # if we have <meta not followed by a space or a slash just keep going
             return True
         # We have a valid meta element we want to search for attributes
         hasPragma = False
